@@ -2,6 +2,7 @@ import XdsVerif.Driver.Util
 import XdsVerif.Driver.C08
 import XdsVerif.Driver.C09
 import XdsVerif.Driver.C14
+import XdsVerif.Driver.C20
 open Lean XdsVerif.Driver
 
 def dispatch (p : String) (j : Json) : Except String Verdict :=
@@ -9,6 +10,7 @@ def dispatch (p : String) (j : Json) : Except String Verdict :=
   | "C08" => C08.check j
   | "C09" => C09.check j
   | "C14" => C14.check j
+  | "C20" => C20.check j
   | _ => .error s!"no driver for property {p}"
 
 partial def loop (h : IO.FS.Stream) (out : IO.FS.Stream) : IO Unit := do
